@@ -9,7 +9,7 @@ restore() { git -C /repo reset -q --hard HEAD; }
 trap restore EXIT
 case "$what" in
   revert:*) git diff "${what#revert:}"^ "${what#revert:}" | git apply -R || { echo "cannot revert"; exit 2; } ;;
-  *) git apply "$what" || { echo "cannot apply $what"; exit 2; } ;;
+  *) case "$what" in /*) ;; *) what="/verif/$what";; esac; git apply "$what" || { echo "cannot apply $what"; exit 2; } ;;
 esac
 cd /verif && ./run.sh "$id" "$tier" 2>/dev/null | grep -E "VIOLATION|KNOWN-FINDING|INCONCLUSIVE|property=|unit=" | cut -c1-400
 echo "exit=${PIPESTATUS[0]}"
